@@ -715,6 +715,6 @@ pub fn property() -> Property {
         rule: "random multigraphs with loops (0..=9 nodes quick) stored in states produced by mutation: Graph renumbered by removals (u8/u16/u32/usize), StableGraph with node and edge vacancies, GraphMap after a remove/re-add, MatrixGraph with reused ids, Csr, adj::List; every edge carries a unique tag.  For each state the base reference and the adaptor views Reversed, Reversed<Reversed>, UndirectedAdaptor (directed bases; also over Reversed), NodeFiltered (closure / HashSet / FixedBitSet predicate), EdgeFiltered, Reversed over both filters, EdgeFiltered over Reversed, Frozen and the &mut delegations are handed to trait-generic checkers together with the expected (reversed / symmetrised / induced / restricted) graph: node_identifiers/node_references once each, node_count, to_index < node_bound, from_index inverse, exactly 0..bound for compact types, edge_references once each, EdgeIndexable round trip, neighbors / neighbors_directed / edges / edges_directed per node as multisets of (source, target, tag) under the documented orientation, is_adjacent for all ordered pairs, visit maps, DataMap, is_directed; non-trivial = a state with vacancies / reused ids, or a depth-2 view, with at least one edge; distinct by case fingerprint",
         assumptions: &["UndirectedAdaptor: a self-loop may be listed once or twice (not specified)"],
         both_profiles: false,
-        subs: vec![sub("views/all-types", 60_000, 1_500_000, strategy, run)],
+        subs: vec![sub("views/all-types", 1_000_000, 20_000_000, strategy, run)],
     }
 }
